@@ -1,7 +1,10 @@
 package checks
 
 import (
+	"bufio"
 	"bytes"
+	"crypto/sha256"
+	"encoding/json"
 	"fmt"
 	"hash/fnv"
 	"os"
@@ -10,8 +13,10 @@ import (
 	"reflect"
 	"regexp"
 	"sort"
+	"strconv"
 	"strings"
 	"sync"
+	"sync/atomic"
 
 	"github.com/cocosip/go-dicom-codecs/jpeg/baseline"
 	"github.com/cocosip/go-dicom-codecs/jpeg/extended"
@@ -131,20 +136,52 @@ type c18Scenario struct {
 	Ops       string
 	ParamMode int
 	Bound     int
+	Fmt       int  // index into the syntax's format list
+	SPP       int  // 0 means 1
+	W, H      int  // 0 means 3x2
+	FreshRef  bool // compare each solo result with the result of the same single call made in a process of its own
+	RefThread int  // worker use: compute only this thread's solo result (see c18RefWorker)
+	Hetero    int  // h > 0: thread k uses format (Fmt+k*h) mod #formats and SPP alternating 1/3, so that calls of different shapes meet
+}
+
+func (a c18Scenario) dims() (int, int, int) {
+	w, h, spp := a.W, a.H, a.SPP
+	if w == 0 {
+		w = 3
+	}
+	if h == 0 {
+		h = 2
+	}
+	if spp == 0 {
+		spp = 1
+	}
+	return w, h, spp
 }
 
 type c18Fixture struct {
-	fi      *imagetypes.FrameInfo
-	frames  [][][]byte // per thread: two frames
-	streams [][][]byte // per thread: two streams (encoded solo)
+	fi      []*imagetypes.FrameInfo // per thread
+	frames  [][][]byte              // per thread: two frames
+	streams [][][]byte              // per thread: two streams (encoded solo)
 }
 
 func c18Fix(ts tsInfo, cd gcodec.Codec, nThreads int) (*c18Fixture, error) {
+	return c18FixFmt(ts, cd, nThreads, 0, 1, 3, 2, 0)
+}
+
+func c18FixFmt(ts tsInfo, cd gcodec.Codec, nThreads, fmtIdx, spp, w, h, hetero int) (*c18Fixture, error) {
 	f := &c18Fixture{}
-	ba, bs := ts.Formats[0][0], ts.Formats[0][1]
-	f.fi = frameInfo(3, 2, ba, bs, 1, false)
 	for th := 0; th < nThreads; th++ {
-		a := c10Case{W: 3, H: 2, BA: ba, BS: bs, SPP: 1}
+		fi, sp := fmtIdx, spp
+		if hetero > 0 {
+			fi = (fmtIdx + th*hetero) % len(ts.Formats)
+			if th%2 == 1 {
+				sp = 4 - spp // 1 <-> 3
+			}
+		}
+		ba, bs := ts.Formats[fi][0], ts.Formats[fi][1]
+		info := frameInfo(w, h, ba, bs, sp, false)
+		f.fi = append(f.fi, info)
+		a := c10Case{W: w, H: h, BA: ba, BS: bs, SPP: sp}
 		fr := [][]byte{c10Frame(a, 1+th%3), c10Frame(a, 2+th%2)}
 		// make frames thread-specific
 		for i := range fr {
@@ -155,8 +192,8 @@ func c18Fix(ts tsInfo, cd gcodec.Codec, nThreads int) (*c18Fixture, error) {
 			}
 		}
 		f.frames = append(f.frames, fr)
-		src := &schedPD{info: f.fi, frames: fr}
-		dst := &schedPD{info: f.fi}
+		src := &schedPD{info: info, frames: fr}
+		dst := &schedPD{info: info}
 		if err := cd.Encode(src, dst, nil); err != nil {
 			return nil, err
 		}
@@ -165,9 +202,47 @@ func c18Fix(ts tsInfo, cd gcodec.Codec, nThreads int) (*c18Fixture, error) {
 	return f, nil
 }
 
+// c18FixOne builds a one-thread fixture holding exactly the frames c18FixFmt gives thread th.
+func c18FixOne(ts tsInfo, cd gcodec.Codec, th, fmtIdx, sp, w, h int, needStreams bool) (*c18Fixture, error) {
+	f := &c18Fixture{}
+	ba, bs := ts.Formats[fmtIdx][0], ts.Formats[fmtIdx][1]
+	info := frameInfo(w, h, ba, bs, sp, false)
+	f.fi = append(f.fi, info)
+	a := c10Case{W: w, H: h, BA: ba, BS: bs, SPP: sp}
+	fr := [][]byte{c10Frame(a, 1+th%3), c10Frame(a, 2+th%2)}
+	for i := range fr {
+		fr[i] = append([]byte(nil), fr[i]...)
+		fr[i][0] ^= byte(0x11 * (th + 1))
+		if bs < 8 {
+			fr[i][0] &= byte(1<<uint(bs) - 1)
+		}
+	}
+	f.frames = append(f.frames, fr)
+	if needStreams {
+		src := &schedPD{info: info, frames: fr}
+		dst := &schedPD{info: info}
+		if err := cd.Encode(src, dst, nil); err != nil {
+			return nil, err
+		}
+		f.streams = append(f.streams, dst.added)
+	} else {
+		f.streams = append(f.streams, nil)
+	}
+	return f, nil
+}
+
 type c18Result struct {
 	err string
 	out [][]byte
+}
+
+func (r c18Result) digest() string {
+	h := sha256.New()
+	for _, o := range r.out {
+		fmt.Fprintf(h, "%d:", len(o))
+		h.Write(o)
+	}
+	return fmt.Sprintf("err=%q frames=%d sha=%x", r.err, len(r.out), h.Sum(nil)[:8])
 }
 
 func (r c18Result) equal(o c18Result) bool {
@@ -185,11 +260,11 @@ func (r c18Result) equal(o c18Result) bool {
 func c18Call(cd gcodec.Codec, fx *c18Fixture, th int, op byte, params gcodec.Parameters, t *eng.T) c18Result {
 	var src *schedPD
 	if op == 'E' {
-		src = &schedPD{t: t, info: fx.fi, frames: fx.frames[th]}
+		src = &schedPD{t: t, info: fx.fi[th], frames: fx.frames[th]}
 	} else {
-		src = &schedPD{t: t, info: fx.fi, frames: fx.streams[th]}
+		src = &schedPD{t: t, info: fx.fi[th], frames: fx.streams[th]}
 	}
-	dst := &schedPD{t: t, info: fx.fi}
+	dst := &schedPD{t: t, info: fx.fi[th]}
 	var err error
 	if op == 'E' {
 		err = cd.Encode(src, dst, params)
@@ -215,16 +290,39 @@ func c18Params(cd gcodec.Codec, mode int, shared gcodec.Parameters, t *eng.T) gc
 	return nil
 }
 
-func c18Run(a c18Scenario, c *eng.Ctx) *eng.Fail {
+// c18Out is what one scenario reports besides its verdict.
+type c18Out struct {
+	Fail      *eng.Fail `json:"fail,omitempty"`
+	Execs     int       `json:"execs"`
+	Points    int       `json:"points"`
+	MaxPoints int       `json:"max_points"`
+	Capped    bool      `json:"capped"`
+	Declined  bool      `json:"declined"`
+	Outcomes  int       `json:"outcomes"`
+}
+
+func c18Run(a c18Scenario, o *c18Out) *eng.Fail {
+	if o == nil {
+		o = &c18Out{}
+	}
 	ts := allTS()[a.TS]
 	cd, ok := gcodec.GetGlobalRegistry().GetCodec(ts.TS)
 	if !ok {
 		return eng.Failf("codec-not-registered:"+ts.Name, "")
 	}
 	n := len(a.Ops)
-	fx, err := c18Fix(ts, cd, n)
+	w, h, spp := a.dims()
+	// digests are taken before the fixture is built so that state built lazily by the very first call is seen too
+	g0 := GlobalsDigest()
+	c0 := deepKey(reflect.ValueOf(cd))
+	fx, err := c18FixFmt(ts, cd, n, a.Fmt, spp, w, h, a.Hetero)
 	if err != nil {
-		return eng.Failf(ts.Name+"|fixture-error", "%v", err)
+		if a.Fmt == 0 && spp == 1 && a.W == 0 && a.Hetero == 0 {
+			return eng.Failf(ts.Name+"|fixture-error", "%v", err)
+		}
+		// the codec declines this frame description (C10/C17 territory): nothing to interleave
+		o.Declined = true
+		return nil
 	}
 	mkShared := func() gcodec.Parameters {
 		if a.ParamMode == 3 {
@@ -234,8 +332,6 @@ func c18Run(a c18Scenario, c *eng.Ctx) *eng.Fail {
 	}
 	// solo results and state digests
 	solo := make([]c18Result, n)
-	g0 := GlobalsDigest()
-	c0 := deepKey(reflect.ValueOf(cd))
 	for th := 0; th < n; th++ {
 		shared := mkShared()
 		p0 := deepKey(reflect.ValueOf(shared))
@@ -249,6 +345,17 @@ func c18Run(a c18Scenario, c *eng.Ctx) *eng.Fail {
 	}
 	if d := diffDigests(g0, GlobalsDigest()); len(d) > 0 {
 		return eng.Failf(ts.Name+"|package-state-written", "package-level variables changed by solo calls: %v", d)
+	}
+	if a.FreshRef {
+		for th := 0; th < n; th++ {
+			ref, err := c18FreshSolo(a, th)
+			if err != nil {
+				return &eng.Fail{Key: "__internal__", Detail: err.Error()}
+			}
+			if got := solo[th].digest(); got != ref {
+				return eng.Failf(ts.Name+"|call-result-depends-on-earlier-calls", "ops %s params mode %d: thread %d's call (%c), made after the other threads' calls in the same process, returns %s; the same call as the only call of a fresh process returns %s", a.Ops, a.ParamMode, th, a.Ops[th], got, ref)
+			}
+		}
 	}
 	if c1 := deepKey(reflect.ValueOf(cd)); c1 != c0 {
 		return eng.Failf(ts.Name+"|codec-state-written", "codec instance changed by solo calls: %s -> %s", c0, c1)
@@ -296,18 +403,7 @@ func c18Run(a c18Scenario, c *eng.Ctx) *eng.Fail {
 	if d := diffDigests(g0, GlobalsDigest()); len(d) > 0 {
 		return eng.Failf(ts.Name+"|package-state-written", "package-level variables changed during interleaved calls: %v", d)
 	}
-	if c != nil {
-		c.Stat("schedules_explored", int64(st.Executions))
-		c.Stat("scheduling_points", int64(st.Points))
-		c.StatMax("max_points_in_one_execution", int64(st.MaxPoints))
-		if st.Capped {
-			c.Capped(fmt.Sprintf("scenario %+v capped at %d schedules", a, st.Executions))
-		}
-		c.Trans(int64(st.Points))
-		c.State(int64(st.Executions))
-		c.Validated(int64(st.Executions))
-		c.Distinct(eng.Hash([]byte(fmt.Sprintf("%+v", a))), st.Executions > 1)
-	}
+	o.Execs, o.Points, o.MaxPoints, o.Capped, o.Outcomes = st.Executions, st.Points, st.MaxPoints, st.Capped, len(distinctOutcomes)
 	return nil
 }
 
@@ -315,11 +411,133 @@ var lastRes []c18Result
 
 var c18Fn = eng.Reg("C18.schedules", func(a c18Scenario) *eng.Fail { return c18Run(a, nil) })
 
+// c18Worker runs one scenario in this (fresh) process and prints its outcome.
+func c18Worker(arg string) int {
+	var a c18Scenario
+	if err := json.Unmarshal([]byte(arg), &a); err != nil {
+		fmt.Fprintln(os.Stderr, err)
+		return 2
+	}
+	var o c18Out
+	o.Fail = eng.Guard(func() *eng.Fail { return c18Run(a, &o) })
+	b, _ := json.Marshal(o)
+	fmt.Printf("C18-RESULT %s\n", b)
+	return 0
+}
+
+// c18RefWorker makes thread a.RefThread's call as the only Encode/Decode call of this process (a Decode needs its
+// stream, so the thread's own frames are encoded first) and prints the result digest.
+func c18RefWorker(arg string) int {
+	var a c18Scenario
+	if err := json.Unmarshal([]byte(arg), &a); err != nil {
+		fmt.Fprintln(os.Stderr, err)
+		return 2
+	}
+	ts := allTS()[a.TS]
+	cd, ok := gcodec.GetGlobalRegistry().GetCodec(ts.TS)
+	if !ok {
+		return 2
+	}
+	w, h, spp := a.dims()
+	th := a.RefThread
+	fi, sp := a.Fmt, spp
+	if a.Hetero > 0 {
+		fi = (a.Fmt + th*a.Hetero) % len(ts.Formats)
+		if th%2 == 1 {
+			sp = 4 - spp
+		}
+	}
+	// a one-thread fixture with exactly thread th's frames: build it as thread index th of a hetero-free fixture
+	fx, err := c18FixOne(ts, cd, th, fi, sp, w, h, a.Ops[th] == 'D')
+	if err != nil {
+		fmt.Printf("C18-REF error %q\n", err.Error())
+		return 0
+	}
+	var shared gcodec.Parameters
+	if a.ParamMode == 3 {
+		shared = gcodec.NewBaseParameters()
+	} else {
+		shared = cd.GetDefaultParameters()
+	}
+	r := c18Call(cd, fx, 0, a.Ops[th], c18Params(cd, a.ParamMode, shared, nil), nil)
+	fmt.Printf("C18-REF %s\n", r.digest())
+	return 0
+}
+
+func c18FreshSolo(a c18Scenario, th int) (string, error) {
+	a.RefThread = th
+	raw, _ := json.Marshal(a)
+	cmd := exec.Command(os.Args[0], "worker", "c18ref", string(raw))
+	cmd.Env = append(os.Environ(), "GOMAXPROCS=2")
+	out, err := cmd.Output()
+	i := bytes.LastIndex(out, []byte("C18-REF "))
+	if i < 0 {
+		return "", fmt.Errorf("no reference from fresh process (%v): %s", err, trunc300(string(out)))
+	}
+	line := string(out[i+len("C18-REF "):])
+	if j := strings.IndexByte(line, '\n'); j >= 0 {
+		line = line[:j]
+	}
+	return line, nil
+}
+
+// c18BatchWorker runs the scenarios of a JSON file one after the other and prints one result line per scenario.
+func c18BatchWorker(path string) int {
+	b, err := os.ReadFile(path)
+	if err != nil {
+		fmt.Fprintln(os.Stderr, err)
+		return 2
+	}
+	var as []c18Scenario
+	if err := json.Unmarshal(b, &as); err != nil {
+		fmt.Fprintln(os.Stderr, err)
+		return 2
+	}
+	for i, a := range as {
+		var o c18Out
+		a := a
+		o.Fail = eng.Guard(func() *eng.Fail { return c18Run(a, &o) })
+		jb, _ := json.Marshal(o)
+		fmt.Printf("C18-RESULT %d %s\n", i, jb)
+	}
+	return 0
+}
+
+// c18Fresh runs one scenario in a fresh child process: no state left by any earlier scenario, solo run or confirmation
+// can mask or fake a result.
+func c18Fresh(a c18Scenario) (c18Out, error) {
+	raw, _ := json.Marshal(a)
+	cmd := exec.Command(os.Args[0], "worker", "c18", string(raw))
+	cmd.Env = append(os.Environ(), "GOMAXPROCS=2")
+	out, err := cmd.Output()
+	i := bytes.LastIndex(out, []byte("C18-RESULT "))
+	if i < 0 {
+		return c18Out{}, fmt.Errorf("scenario %+v: child gave no result (%v): %s", a, err, trunc300(string(out)))
+	}
+	line := out[i+len("C18-RESULT "):]
+	if j := bytes.IndexByte(line, '\n'); j >= 0 {
+		line = line[:j]
+	}
+	var o c18Out
+	if err := json.Unmarshal(line, &o); err != nil {
+		return c18Out{}, err
+	}
+	return o, nil
+}
+
+var c18FreshFn = func(a c18Scenario) *eng.Fail {
+	o, err := c18Fresh(a)
+	if err != nil {
+		return &eng.Fail{Key: "__internal__", Detail: err.Error()}
+	}
+	return o.Fail
+}
+
 var reRace = regexp.MustCompile(`(?s)WARNING: DATA RACE\n(.*?)\n==================`)
 var reRepoFrame = regexp.MustCompile(`github\.com/cocosip/go-dicom-codecs/(\S+)\(\)`)
 
 func c18(c *eng.Ctx) {
-	c.Rule("E4: for every registered codec x operation mix (EE, ED, DD; EED with 3 threads) x parameter mode (nil, per-thread object, one shared default object, one shared generic object) every interleaving of the calls at callback granularity (every GetFrame/AddFrame/FrameCount/GetFrameInfo/GetParameter/SetParameter is a scheduling point; 2 threads: all schedules, 3 threads: preemption bound 2) is executed under a cooperative scheduler and each result compared with the solo result; deep digests of the codec instance, the shared parameter object and every package-level variable are compared before/after solo and interleaved calls; plus a free-running -race pass of the same bodies (64 concurrent calls, GOMAXPROCS 1/2/4/16). states = schedules executed, transitions = scheduling points")
+	c.Rule("E4, every scenario in its own fresh process: for every registered codec x operation mix (EE, ED, DD; EED with 3 threads; heterogeneous frame descriptions between the threads; every format x samples per pixel x 3 sizes solo) x parameter mode (nil, per-thread object, one shared default object, one shared generic object) every interleaving of the calls at callback granularity (every GetFrame/AddFrame/FrameCount/GetFrameInfo/GetParameter/SetParameter is a scheduling point; 2 threads: all schedules, 3 threads: preemption bound 2) is executed under a cooperative scheduler and each result compared with the solo result; deep digests of the codec instance, the shared parameter object and every package-level variable are compared before/after solo and interleaved calls; plus a free-running -race pass of the same bodies (64 concurrent calls, GOMAXPROCS 1/2/4/16). states = schedules executed, transitions = scheduling points")
 	c.Assume("the repository takes no locks and starts no goroutines, so a write to state shared between calls is a data race under every schedule; value-preserving writes are invisible to digests and are left to the race detector pass")
 	c.Assume("scheduling points are at callback granularity; accesses inside one frame's processing are not interleaved by the cooperative scheduler (the race pass and the digests cover shared state used within a frame)")
 	var jobs []c18Scenario
@@ -341,23 +559,156 @@ func c18(c *eng.Ctx) {
 			jobs = append(jobs, c18Scenario{TS: ti, Ops: "EED", ParamMode: pm, Bound: b})
 		}
 	}
-	// scenarios share the registry instance and the package globals, so they run sequentially
-	before := c.Evals()
-	for _, a := range jobs {
-		if c.Expired() {
-			c.Capped("scenario list cut by deadline")
-			break
-		}
-		a := a
-		c.Eval(1)
-		if f := eng.Guard(func() *eng.Fail { return c18Run(a, c) }); f != nil {
-			if f.Key == "__internal__" {
-				c.Abort("scheduler: %s", f.Detail)
+	// format sweep: every (BitsAllocated, BitsStored) pair of the syntax x SPP {1,3} x sizes that reach partial blocks, several
+	// blocks and odd widths: solo calls with state digests for both operations and every parameter mode (one thread: the
+	// schedule space is a single execution, the oracle is the digest comparison), and the ED interleavings with one shared
+	// parameters object.
+	for ti, ts := range allTS() {
+		for fi := range ts.Formats {
+			for _, spp := range []int{1, 3} {
+				for _, wh := range [][2]int{{3, 2}, {9, 10}, {17, 9}} {
+					for _, ops := range []string{"E", "D"} {
+						for pm := 0; pm < 4; pm++ {
+							jobs = append(jobs, c18Scenario{TS: ti, Ops: ops, ParamMode: pm, Bound: 0, Fmt: fi, SPP: spp, W: wh[0], H: wh[1]})
+						}
+					}
+					if (fi != 0 || spp != 1) && wh[0] == 9 {
+						b := 1
+						if c.Thorough() {
+							b = -1
+						}
+						jobs = append(jobs, c18Scenario{TS: ti, Ops: "ED", ParamMode: 2, Bound: b, Fmt: fi, SPP: spp, W: wh[0], H: wh[1]})
+					}
+				}
 			}
-			eng.Recheck(c, "C18.schedules", a, c18Fn)
 		}
 	}
-	c.Subspace("schedule-exploration", c.Evals()-before, !c.Expired(), fmt.Sprintf("%d scenarios (14 codecs x {EE,ED,DD} x 4 parameter modes with preemption bound 2 in quick and every schedule in thorough; EED with preemption bound 1 / 2)", len(jobs)))
+	// heterogeneous scenarios: the threads' calls have different frame descriptions (other bit depth, 1 vs 3 samples per
+	// pixel), so that anything recycled between calls (a pooled encoder, a cached table sized for the previous frame) meets
+	// a call of a different shape; both thread orders
+	for ti, ts := range allTS() {
+		for _, ops := range []string{"EE", "ED", "DE", "DD"} {
+			for _, het := range []int{1, 2} {
+				for _, spp := range []int{1, 3} {
+					for _, pm := range []int{0, 2} {
+						b := 2
+						if c.Thorough() {
+							b = -1
+						}
+						jobs = append(jobs, c18Scenario{TS: ti, Ops: ops, ParamMode: pm, Bound: b, Fmt: 0, SPP: spp, W: 5, H: 3, Hetero: het})
+					}
+				}
+			}
+		}
+		_ = ts
+	}
+	// Scenarios are dealt round-robin to 16 worker processes (process start-up is the expensive part on this machine);
+	// inside a worker they run one after the other. A failing scenario is then re-run in fresh processes of its own, which
+	// is also what decides whether it is reported (state the library keeps between calls cannot be undone in-process).
+	before := c.Evals()
+	account := func(a c18Scenario, o c18Out) {
+		if o.Fail != nil {
+			if o.Fail.Key == "__internal__" {
+				c.Abort("scheduler: %s", o.Fail.Detail)
+			}
+			eng.Recheck(c, "C18.schedules", a, c18FreshFn)
+			return
+		}
+		if o.Declined {
+			c.Stat("scenarios_declined_by_codec", 1)
+			return
+		}
+		c.Stat("schedules_explored", int64(o.Execs))
+		c.Stat("scheduling_points", int64(o.Points))
+		c.StatMax("max_points_in_one_execution", int64(o.MaxPoints))
+		c.StatMax("max_distinct_outcomes_in_one_scenario", int64(o.Outcomes))
+		if o.Capped {
+			c.Capped(fmt.Sprintf("scenario %+v capped at %d schedules", a, o.Execs))
+		}
+		c.Trans(int64(o.Points))
+		c.State(int64(o.Execs))
+		c.Validated(int64(o.Execs))
+		c.Distinct(eng.Hash([]byte(fmt.Sprintf("%+v", a))), o.Execs > 1)
+	}
+	const nw = 16
+	batches := make([][]c18Scenario, nw)
+	for i, a := range jobs {
+		batches[i%nw] = append(batches[i%nw], a)
+	}
+	tmp := filepath.Join(c.Root, "build", "tmp")
+	os.MkdirAll(tmp, 0o755)
+	var completed atomic.Int64
+	c.Par(nw, func(w int) {
+		raw, _ := json.Marshal(batches[w])
+		path := filepath.Join(tmp, fmt.Sprintf("c18-batch-%d-%d.json", os.Getpid(), w))
+		os.WriteFile(path, raw, 0o644)
+		defer os.Remove(path)
+		cmd := exec.Command(os.Args[0], "worker", "c18batch", path)
+		cmd.Env = append(os.Environ(), "GOMAXPROCS=2")
+		stdout, _ := cmd.StdoutPipe()
+		if err := cmd.Start(); err != nil {
+			c.Abort("c18 worker: %v", err)
+		}
+		sc := bufio.NewScanner(stdout)
+		sc.Buffer(make([]byte, 1<<20), 1<<26)
+		for sc.Scan() {
+			line := sc.Text()
+			if !strings.HasPrefix(line, "C18-RESULT ") {
+				continue
+			}
+			rest := line[len("C18-RESULT "):]
+			sp := strings.IndexByte(rest, ' ')
+			idx, _ := strconv.Atoi(rest[:sp])
+			var o c18Out
+			if err := json.Unmarshal([]byte(rest[sp+1:]), &o); err != nil || idx < 0 || idx >= len(batches[w]) {
+				c.Abort("c18 worker: bad result line %q", trunc300(line))
+			}
+			c.Eval(1)
+			completed.Add(1)
+			account(batches[w][idx], o)
+			if c.Expired() {
+				cmd.Process.Kill()
+				break
+			}
+		}
+		cmd.Wait()
+	})
+	done := completed.Load() == int64(len(jobs))
+	if !done {
+		c.Capped(fmt.Sprintf("scenario list cut by deadline or worker death: %d of %d scenarios completed", completed.Load(), len(jobs)))
+	}
+	c.Subspace("schedule-exploration", c.Evals()-before, done, fmt.Sprintf("%d scenarios, each in a fresh process: 14 codecs x {EE,ED,DD} x 4 parameter modes (preemption bound 2 in quick, every schedule in thorough); EED (bound 1 / 2); every format x SPP {1,3} x sizes {3x2,9x10,17x9} x {E,D} x 4 parameter modes solo with state digests, ED interleavings per format; heterogeneous scenarios {EE,ED,DE,DD} x 2 format offsets x SPP x {nil, shared} parameters", len(jobs)))
+	// heterogeneous scenarios once more, each from a fresh process (4 at a time): nothing an earlier scenario left behind
+	// can make the solo runs and the interleaved runs agree by being polluted alike
+	before = c.Evals()
+	var het []c18Scenario
+	for _, a := range jobs {
+		if a.Hetero > 0 && (a.ParamMode == 2) == (a.Ops == "ED" || a.Ops == "DE") {
+			a.Bound = 1
+			a.FreshRef = true
+			het = append(het, a)
+		}
+	}
+	var hmu sync.Mutex
+	hi := 0
+	hdone := c.Par(4, func(int) {
+		for {
+			hmu.Lock()
+			i := hi
+			hi++
+			hmu.Unlock()
+			if i >= len(het) || c.Expired() {
+				return
+			}
+			c.Eval(1)
+			o, err := c18Fresh(het[i])
+			if err != nil {
+				c.Abort("scheduler: %v", err)
+			}
+			account(het[i], o)
+		}
+	})
+	c.Subspace("heterogeneous-fresh-process", c.Evals()-before, hdone && !c.Expired(), fmt.Sprintf("%d heterogeneous scenarios, each in a fresh process, preemption bound 1; every solo result is also compared with the same call made as the only call of yet another fresh process", len(het)))
 	// free-running race pass
 	race := filepath.Join(c.Root, "build", "vrace")
 	if _, err := os.Stat(race); err != nil {
